@@ -15,7 +15,6 @@ import gen_qcow2
 import gen_vhdx
 import gen_vmdk
 from core import Built
-from sparse import Image
 
 PROPERTY = "C07"
 RULE = ("five families, real temp directories on the implementation side. vhdx: differencing chains depth 2..4, per-block states "
@@ -23,7 +22,7 @@ RULE = ("five families, real temp directories on the implementation side. vhdx: 
         "absolute / both / missing. hdd: Parallels snapshot trees (chains depth 1..4 + side branches, explicit and default TopGUID, "
         "plain roots, XML order shuffled, moved directories). qcow2: backing chains (raw / qcow2, shorter / longer), internal "
         "snapshots read after the active image has been read (history), missing backing. vdi: parent chains. vmdk: delta descriptors "
-        "over a parent descriptor (hint: same directory, sibling directory, Windows-style path, missing). Non-trivial = depth ≥ 2 and "
+        "naming 1..4 sparse extents (cuts unrelated to grain sizes and to the parent's extents) over a parent descriptor (hint: same directory, sibling directory, Windows-style path, missing). Non-trivial = depth ≥ 2 and "
         "(for content families) a request that crosses an allocation-unit boundary; distinct recipe hash. Resolution layouts (c07_resolve.py): "
         "rx = VHDX parent locators (first / second key, table order, stale or unusable first key, missing keys, drive letters, case, `..` through a "
         "missing directory, cycles, three directories deep), rh = Parallels .hdd directories (relative / absolute image names, the three fall-back "
@@ -48,64 +47,12 @@ def hexs(s):
 # ------------------------------------------------------------------------------------------ vmdk delta
 
 def gen_vmdk_delta(rng, tier):
-    while True:
-        base = gen_vmdk.gen_disk(rng, tier)
-        # the hint is a descriptor *value*: values lose leading/trailing blanks and quotes (see DESIGN, C14 note)
-        nm = base["desc"]["name"] if base["mode"] == "descriptor" else ""
-        if base["mode"] == "descriptor" and 0 < sum(e["sectors"] for e in base["extents"]) < (1 << 22) and nm == nm.strip(' "'):
-            break
-    cap = sum(e["sectors"] for e in base["extents"])
-    kind = rng.choice(["kdmv", "cowd", "sesparse", "kdmv"])
-    ext = gen_vmdk.gen_extent(rng, tier, kind=kind, capacity=cap, huge=False)
-    where = rng.choice(["same", "same", "sibling", "winpath", "missing"])
-    return {"base": base, "child": ext, "where": where, "cid": f"{rng.getrandbits(32):08x}"}
+    """delta descriptor (1..4 sparse extents, see gen_vmdk.gen_delta) over a parent descriptor; the hint names the same directory,
+    a sibling directory, a Windows-style path, or nothing that exists"""
+    return gen_vmdk.gen_delta(rng, tier)
 
 
-class VmdkDeltaTruth:
-    def __init__(self, r):
-        self.r = r
-        self.base = gen_vmdk.DiskTruth(r["base"])
-        self.child = gen_vmdk.ExtentTruth(r["child"])
-        self.size = self.child.size
-        bname = self.base.descriptor_name
-        hint = {"same": bname, "sibling": "../basedir/" + bname, "winpath": "C:\\vms\\basedir\\" + bname, "missing": "nowhere/" + "absent-" + bname}[r["where"]]
-        self.child_desc = ("# Disk DescriptorFile\nversion=1\nCID=%s\nparentCID=%s\ncreateType=\"twoGbMaxExtentSparse\"\nparentFileNameHint=\"%s\"\n"
-                           "# Extent description\nRW %d %s \"child-s001.vmdk\"\n\n# The Disk Data Base\n#DDB\n") % (
-            r["cid"], r["base"]["desc"]["cid"], hint, r["child"]["cap"], "SESPARSE" if r["child"]["kind"] == "sesparse" else ("VMFSSPARSE" if r["child"]["kind"] == "cowd" else "SPARSE"))
-        self.desc_img = Image()
-        self.desc_img.put_hex(0, self.child_desc.encode())
-        self.desc_img.finish()
-
-    def read(self, off, n):
-        r = self.r["child"]
-        gsz = r["gs"] * 512
-        out = []
-        end = off + n
-        while off < end:
-            g, ino = divmod(off, gsz)
-            k = min(gsz - ino, end - off)
-            v = r["grains"].get(str(g))
-            if v is None or v == "f":
-                out.append(self.base.read(off, k))
-            elif v == "z":
-                out.append(bytes(k))
-            else:
-                out.append(self.child.read(off, k))
-            off += k
-        return b"".join(out)
-
-    def write(self, d):
-        r = self.r
-        cdir = os.path.join(d, "childdir")
-        os.makedirs(cdir)
-        bdir = cdir if r["where"] in ("same", "missing") else os.path.join(d, "basedir")
-        os.makedirs(bdir, exist_ok=True)
-        if r["where"] != "missing":
-            for name, im in self.base.files.items():
-                im.write_to(os.path.join(bdir, name))
-        self.desc_img.write_to(os.path.join(cdir, "child.vmdk"))
-        self.child.image.write_to(os.path.join(cdir, "child-s001.vmdk"))
-        return os.path.join(cdir, "child.vmdk")
+VmdkDeltaTruth = gen_vmdk.DeltaTruth
 
 
 # ------------------------------------------------------------------------------------------ generation
@@ -141,8 +88,7 @@ def generate(seed, tier):
     for i in range(n):
         r = gen_vmdk_delta(rng, tier)
         t = VmdkDeltaTruth(r)
-        pts = sorted(set(gen_vmdk.extent_points(r["child"])) | set(t.base.points()))
-        qs = [["o", o, l] for o, l in gen_vmdk.gen_queries(rng, t.size, pts, 8 if tier == "quick" else 14)]
+        qs = [["o", o, l] for o, l in gen_vmdk.gen_queries(rng, t.size, t.points(), 8 if tier == "quick" else 14) + t.hot_queries(4)]
         cases.append({"id": f"m{i}", "fam": "vmdk", "recipe": r, "align": rng.choice([8192] * 4 + [512, 65536]), "queries": qs})
     # parent / chain resolution on directory layouts (model: lean/Hv/Resolve.lean through the `resolve.*` driver commands)
     cases += rsv.generate(random.Random(f"C07res/{seed}/{tier}"), tier)
@@ -211,10 +157,12 @@ def build(case):
     missing = r["where"] == "missing"
     truth = ["E"] if missing else core.truth_ops(t.size, t.read, case["queries"])
     ids = {name: f"b{k}" for k, name in enumerate(t.base.files)}
+    cids = {name: f"c{k}" for k, name in enumerate(t.child.files)}
     files = {ids[n]: im for n, im in t.base.files.items()}
-    files["cd"] = t.desc_img
-    files["ce"] = t.child.image
-    b = Built(files, truth, {"branches": ["vmdk", r["where"], r["child"]["kind"]], "crosses": True, "depth": 2, "in_scope": True, "ids": ids, "missing": missing})
+    files.update({cids[n]: im for n, im in t.child.files.items()})
+    nx = len(r["child"]["extents"])
+    b = Built(files, truth, {"branches": ["vmdk", r["where"], f"extents{min(nx, 3)}"] + sorted({e["rec"]["kind"] for e in r["child"]["extents"]}), "crosses": True, "depth": 2,
+                             "in_scope": True, "ids": ids, "cids": cids, "missing": missing})
     b.t = t
     return b
 
@@ -334,7 +282,8 @@ def model_lines(case, built):
     ids = built.info["ids"]
     base_names = "+".join(f"{hexs(n)}={ids[n]}" for n in t.base.files if n != t.base.descriptor_name)
     layers = [f"D:{ids[t.base.descriptor_name]}:{base_names}"] if r["where"] != "missing" else []
-    layers.append(f"D:cd:{hexs('child-s001.vmdk')}=ce")
+    cids = built.info["cids"]
+    layers.append(f"D:{cids[t.child.descriptor_name]}:" + "+".join(f"{hexs(n)}={cids[n]}" for n in t.child.files if n != t.child.descriptor_name))
     return core.file_lines(built.files) + [f"vmdk.desc.delta {a} {len(layers)} " + " ".join(layers) + " " + toks]
 
 
